@@ -37,6 +37,9 @@ func quotient(root map[string]any, at any, args ...any) any {
 			case i == 0:
 				iq = ii
 			case isFloat:
+				if ii == 0 {
+					panic(fmt.Errorf("quotient: divide by zero"))
+				}
 				fq /= float64(ii)
 			default:
 				iq /= ii
@@ -47,6 +50,8 @@ func quotient(root map[string]any, at any, args ...any) any {
 			case i == 0:
 				fq = f
 				isFloat = true
+			case f == 0.0:
+				panic(fmt.Errorf("quotient: divide by zero"))
 			case isFloat:
 				fq /= f
 			default:
